@@ -719,7 +719,7 @@ int mpq_EGlpNumReadStrXc (mpq_t var,
 				 (a_dot && (c == '.')) ||	/* allow to read a dot point */
 				 (a_exp && (c == 'e' || c == 'E')) ||	/* allow an exponent marker */
 				 (a_sgn && (c == '+' || c == '-')) ||	/* allow a number sign */
-				 (a_div && c == '/') ||	/* allow the division sign */
+				 (a_div && n_dig && c == '/') ||	/* allow the division sign after a numerator */
 				 (a_exp_sgn && (c == '+' || c == '-')) /* allow sign for exponent */ )
 	{
 		switch (c)
@@ -828,7 +828,12 @@ int mpq_EGlpNumReadStrXc (mpq_t var,
 		/* ending */
 		mpq_canonicalize (den[0]);
 		mpq_canonicalize (den[1]);
-		mpq_div (var, den[0], den[1]);
+		/* a zero denominator ("1/0", "1/", "/") is not a number: report that nothing
+		 * was read instead of letting mpq_div raise SIGFPE */
+		if (mpz_sgn (mpq_numref (den[1])) == 0)
+			n_char = 0;
+		else
+			mpq_div (var, den[0], den[1]);
 	}
 	mpq_clear (den[0]);
 	mpq_clear (den[1]);
